@@ -557,3 +557,368 @@ theorem Shape_Eq_eq (s other : List Int) : Shape_Eq s other = .ok (shapeEq s oth
           repeat' split
           all_goals simp_all
 end TM.Gen
+
+namespace TM.Gen
+open TM
+set_option linter.unusedSimpArgs false
+
+/-! ### `Shape.S` -/
+
+/-- exact form of the translated `SliceDetails` in terms of the model function -/
+theorem SliceDetails_exact (s : GoSlice) (size : Int) :
+    ∃ r, SliceDetails s size = .ok r ∧
+      (match sliceDetails s size with
+       | .ok (a, b, c) => r = (a, b, c, none)
+       | .error (.err _) => r.2.2.2.isSome = true
+       | .error (.panic _) => False) := by
+  unfold SliceDetails sliceDetails
+  cases s with
+  | none => exact ⟨_, rfl, rfl⟩
+  | some sl =>
+    simp only [CheckSlice, Slice_Start, Slice_End, Slice_Step, bind, Except.bind, pure, Except.pure, Option.isNone_some,
+      Bool.false_eq_true, if_false]
+    by_cases h1 : sl.start > sl.stop
+    · exact ⟨_, by simp [h1]; rfl, by simp [h1, throwErr]⟩
+    · by_cases h2 : sl.start < 0
+      · exact ⟨_, by simp [h1, h2]; rfl, by simp [h1, h2, throwErr]⟩
+      · by_cases h3 : (sl.step == 0 && sl.stop - sl.start > 1) = true
+        · have h3' : (sl.step == 0 && decide (sl.stop - sl.start > 1)) = true := by simpa using h3
+          exact ⟨_, by simp [h1, h2, h3']; rfl, by simp [h1, h2, h3, throwErr]⟩
+        · have h3' : (sl.step == 0 && decide (sl.stop - sl.start > 1)) = false := by simpa using h3
+          by_cases h4 : sl.start ≥ size
+          · exact ⟨_, by simp [h1, h2, h3', h4]; rfl, by simp [h1, h2, h3, h4, throwErr]⟩
+          · by_cases h5 : sl.stop > size
+            · exact ⟨_, by simp [h1, h2, h3', h4, h5]; rfl, by simp [h1, h2, h3, h4, h5]⟩
+            · exact ⟨_, by simp [h1, h2, h3', h4, h5]; rfl, by simp [h1, h2, h3, h4, h5]⟩
+end TM.Gen
+namespace TM.Gen
+open TM
+set_option linter.unusedSimpArgs false
+
+theorem gdiv_ne (a b : Int) (h : b ≠ 0) : gdiv a b = .ok (Int.tdiv a b) := by
+  unfold gdiv; simp [h, pure, Except.pure]
+
+theorem take_set_succ (rv : List Int) (k : Nat) (v : Int) (h : k < rv.length) :
+    (rv.set k v).take (k + 1) = rv.take k ++ [v] := by
+  rw [List.take_add_one]
+  simp [List.getElem?_set, h, List.take_set]
+  exact List.set_eq_of_length_le (by simp; omega)
+
+theorem S_loop1 (s : List Int) (slices : List GoSlice) : ∀ (rest : List Int) (k : Nat) (rv : List Int),
+    s.drop k = rest → rv.length = s.length →
+    match shapeS.loop rest (slices.drop k) with
+    | .ok ps => Shape_S_loop1 s slices (enumFrom k rest) none rv = .ok (Ctl.next (none, rv.take k ++ ps.map (·.1)))
+    | .error (.err _) => ∃ rv' e, Shape_S_loop1 s slices (enumFrom k rest) none rv = .ok (Ctl.ret (rv', some e))
+    | .error (.panic _) => False := by
+  intro rest
+  induction rest with
+  | nil =>
+    intro k rv hk hrv
+    have : rv.take k = rv := List.take_of_length_le (by
+      have := List.drop_eq_nil_iff.mp hk; omega)
+    simp [shapeS.loop, enumFrom, Shape_S_loop1, this, pure, Except.pure]
+  | cons size rest ih =>
+    intro k rv hk hrv
+    have hlt : k < s.length := by
+      rcases Nat.lt_or_ge k s.length with h | h
+      · exact h
+      · have : s.drop k = [] := List.drop_eq_nil_of_le h
+        rw [this] at hk; cases hk
+    have hrest : s.drop (k + 1) = rest := by
+      have := List.drop_eq_getElem_cons hlt
+      rw [this] at hk; injection hk
+    have hkr : k < rv.length := by omega
+    -- the slice of this axis
+    have hsl : (if decide ((k : Int) ≤ len slices - 1) then gidx slices (k : Int) else (pure none : GoM GoSlice))
+        = .ok ((slices.drop k).head?.join) := by
+      by_cases hks : k < slices.length
+      · have : ((k : Int) ≤ len slices - 1) := by unfold len; omega
+        simp [this, gidx_lt slices k hks, List.head?_drop, List.getElem?_eq_getElem hks]
+      · have : ¬ ((k : Int) ≤ len slices - 1) := by unfold len; omega
+        have h2 : slices[k]? = none := List.getElem?_eq_none (by omega)
+        simp [this, List.head?_drop, h2, pure, Except.pure]
+    rw [shapeS.loop]
+    obtain ⟨r, hr, hrel⟩ := SliceDetails_exact ((slices.drop k).head?.join) size
+    cases hsd : sliceDetails ((slices.drop k).head?.join) size with
+    | error e =>
+      rw [hsd] at hrel
+      cases e with
+      | panic t => exact hrel.elim
+      | err t =>
+        rw [enumFrom, Shape_S_loop1]
+        simp only [bind, Except.bind, throwErr]
+        obtain ⟨r1, r2, r3, r4⟩ := r
+        simp only at hrel
+        cases r4 with
+        | none => simp at hrel
+        | some e =>
+          refine ⟨rv, e, ?_⟩
+          by_cases hks : decide ((k : Int) ≤ len slices - 1) = true
+          · simp only [hks, if_true] at hsl
+            simp only [hks, if_true, hsl, hr, bind, Except.bind, pure, Except.pure, Option.isSome_some]
+          · simp only [hks, if_false, Bool.false_eq_true] at hsl
+            simp only [hks, if_false, Bool.false_eq_true]
+            injection hsl with hsl
+            rw [← hsl] at hr
+            simp only [hr, bind, Except.bind, pure, Except.pure, Option.isSome_some]
+            rfl
+    | ok v =>
+      obtain ⟨a, b, c⟩ := v
+      rw [hsd] at hrel
+      simp only at hrel
+      subst hrel
+      have hdrop : (slices.drop k).tail = slices.drop (k + 1) := by simp [List.tail_drop]
+      -- the value written at position k
+      let n : Int := if c > 0 then (if goDiv (b - a) c ≤ 0 then 1 else goDiv (b - a) c) else b - a
+      have hn : n = (if c > 0 then (if goDiv (b - a) c ≤ 0 then 1 else goDiv (b - a) c) else b - a) := rfl
+      have ih' := ih (k + 1) (rv.set k n) hrest (by simp [hrv])
+      rw [← hdrop] at ih'
+      -- Go side: everything up to the recursive call
+      have hgo : Shape_S_loop1 s slices (enumFrom k (size :: rest)) none rv =
+          Shape_S_loop1 s slices (enumFrom (k + 1) rest) none (rv.set k n) := by
+        rw [enumFrom, Shape_S_loop1]
+        have hsd' : ∀ sl, (.ok sl : GoM GoSlice) = .ok ((slices.drop k).head?.join) →
+            SliceDetails sl size = .ok (a, b, c, none) := by
+          intro sl h; injection h with h; rw [h]; exact hr
+        by_cases hks : decide ((k : Int) ≤ len slices - 1) = true
+        · simp only [hks, if_true] at hsl
+          simp only [hks, if_true, hsl, hr, bind, Except.bind, pure, Except.pure, Option.isSome_none, Bool.false_eq_true, if_false]
+          by_cases hc : c > 0
+          · have hc0 : c ≠ 0 := by omega
+            have hgi : gidx (rv.set k ((b - a).tdiv c)) (k : Int) = .ok ((b - a).tdiv c) := by
+              rw [gidx_lt _ k (by simp; omega)]; simp
+            simp only [hc, decide_true, if_true, gdiv_ne _ _ hc0, gset_lt rv k _ hkr, hgi]
+            by_cases hq : (b - a).tdiv c ≤ 0
+            · simp [hq, hn, hc, goDiv, gset_lt _ k _ (by simp; omega : k < (rv.set k ((b - a).tdiv c)).length)]
+            · simp [hq, hn, hc, goDiv]
+          · simp [hc, hn, gset_lt rv k _ hkr]
+        · simp only [hks, if_false, Bool.false_eq_true] at hsl
+          injection hsl with hsl
+          rw [← hsl] at hr
+          simp only [hks, if_false, Bool.false_eq_true, hr, bind, Except.bind, pure, Except.pure, Option.isSome_none]
+          by_cases hc : c > 0
+          · have hc0 : c ≠ 0 := by omega
+            have hgi : gidx (rv.set k ((b - a).tdiv c)) (k : Int) = .ok ((b - a).tdiv c) := by
+              rw [gidx_lt _ k (by simp; omega)]; simp
+            simp only [hc, decide_true, if_true, gdiv_ne _ _ hc0, gset_lt rv k _ hkr, hgi]
+            by_cases hq : (b - a).tdiv c ≤ 0
+            · simp [hq, hn, hc, goDiv, gset_lt _ k _ (by simp; omega : k < (rv.set k ((b - a).tdiv c)).length)]
+            · simp [hq, hn, hc, goDiv]
+          · simp [hc, hn, gset_lt rv k _ hkr]
+      rw [hgo]
+      simp only [bind, Except.bind]
+      cases hl : shapeS.loop rest (slices.drop k).tail with
+      | error e =>
+        rw [hl] at ih'
+        cases e with
+        | err t => simpa using ih'
+        | panic t => exact ih'.elim
+      | ok ps =>
+        rw [hl] at ih'
+        simp only [pure, Except.pure]
+        rw [ih', take_set_succ rv k n hkr]
+        simp [hn]
+
+end TM.Gen
+namespace TM.Gen
+open TM
+set_option linter.unusedSimpArgs false
+
+/-- the dimension-dropping loop of `Shape.S` in terms of original axis numbers -/
+def dropF (slices : List GoSlice) : Nat → List Int → List Int
+  | _, [] => []
+  | j, n :: r => if n == 1 && (slices[j]?.join).isSome then dropF slices (j + 1) r else n :: dropF slices (j + 1) r
+
+theorem gslice_take {α} (l : List α) (d : Nat) (h : d ≤ l.length) : gslice l 0 (d : Int) = .ok (l.take d) := by
+  unfold gslice len
+  have : ¬ ((0 : Int) < 0 ∨ (d : Int) < 0 ∨ (d : Int) > (l.length : Int)) := by omega
+  simp [this, pure, Except.pure]
+  omega
+
+theorem gslice_drop {α} (l : List α) (d : Nat) (h : d ≤ l.length) : gslice l (d : Int) (len l) = .ok (l.drop d) := by
+  unfold gslice len
+  have : ¬ ((d : Int) < 0 ∨ (l.length : Int) < (d : Int) ∨ (l.length : Int) > (l.length : Int)) := by omega
+  simp [this, pure, Except.pure]
+  omega
+
+def ctlRv : Ctl (List Int × GoErr) (Int × Int × Int × List Int) → Option (List Int)
+  | Ctl.next s => some s.2.2.2
+  | Ctl.ret _ => none
+
+theorem S_loop2 (slices : List GoSlice) : ∀ (rest kept : List Int) (j fuel : Nat),
+    fuel ≥ rest.length + 1 → kept.length ≤ j →
+    (Shape_S_loop2 slices fuel (kept.length : Int) ((kept.length : Int) + rest.length)
+        ((j : Int) - kept.length) (kept ++ rest)).map ctlRv = .ok (some (kept ++ dropF slices j rest)) := by
+  intro rest
+  induction rest with
+  | nil =>
+    intro kept j fuel hf hj
+    obtain ⟨f, rfl⟩ : ∃ f, fuel = f + 1 := ⟨fuel - 1, by omega⟩
+    rw [Shape_S_loop2]
+    simp [dropF, pure, Except.pure, Except.map, ctlRv]
+  | cons n rest ih =>
+    intro kept j fuel hf hj
+    obtain ⟨f, rfl⟩ : ∃ f, fuel = f + 1 := ⟨fuel - 1, by simp at hf; omega⟩
+    rw [Shape_S_loop2]
+    have hlt : ((kept.length : Int) < (kept.length : Int) + ((n :: rest).length : Nat)) := by simp; omega
+    have hgi : gidx (kept ++ n :: rest) (kept.length : Int) = .ok n := by
+      rw [gidx_lt _ _ (by simp)]; simp
+    have hoff : (j : Int) - kept.length + kept.length = (j : Int) := by omega
+    simp only [hlt, decide_true, Bool.not_true, Bool.false_eq_true, if_false, hgi, bind, Except.bind, hoff]
+    have hf' : f ≥ rest.length + 1 := by simp at hf; omega
+    -- the two possible continuations, in the form of the induction hypothesis
+    have keepIH := ih (kept ++ [n]) (j + 1) f hf' (by simp; omega)
+    have dropIH := ih kept (j + 1) f hf' (by omega)
+    have eK1 : ((kept.length : Int) + 1) = ((kept ++ [n]).length : Int) := by simp
+    have eK2 : ((kept.length : Int) + ((n :: rest).length : Nat)) = ((kept ++ [n]).length : Int) + rest.length := by
+      simp; omega
+    have eK3 : ((j : Int) - kept.length) = ((j + 1 : Nat) : Int) - ((kept ++ [n]).length : Int) := by simp; omega
+    have eK4 : kept ++ n :: rest = (kept ++ [n]) ++ rest := by simp
+    have keep : Except.map ctlRv (Shape_S_loop2 slices f ((kept.length : Int) + 1) ((kept.length : Int) + ((n :: rest).length : Nat))
+        ((j : Int) - kept.length) (kept ++ n :: rest)) = .ok (some (kept ++ n :: dropF slices (j + 1) rest)) := by
+      rw [eK1, eK2, eK3, eK4, keepIH]; simp
+    have eD1 : ((kept.length : Int) - 1 + 1) = (kept.length : Int) := by omega
+    have eD2 : ((kept.length : Int) + ((n :: rest).length : Nat) - 1) = (kept.length : Int) + rest.length := by simp; omega
+    have eD3 : ((j : Int) - kept.length + 1) = ((j + 1 : Nat) : Int) - (kept.length : Int) := by simp; omega
+    have drop : Except.map ctlRv (Shape_S_loop2 slices f ((kept.length : Int) - 1 + 1) ((kept.length : Int) + ((n :: rest).length : Nat) - 1)
+        ((j : Int) - kept.length + 1) (kept ++ rest)) = .ok (some (kept ++ dropF slices (j + 1) rest)) := by
+      rw [eD1, eD2, eD3, dropIH]
+    have hs1 : gslice (kept ++ n :: rest) 0 (kept.length : Int) = .ok kept := by
+      rw [gslice_take _ _ (by simp)]; simp
+    have hs2 : gslice (kept ++ n :: rest) ((kept.length : Int) + 1) (len (kept ++ n :: rest)) = .ok rest := by
+      have : ((kept.length : Int) + 1) = ((kept.length + 1 : Nat) : Int) := by simp
+      rw [this, gslice_drop _ _ (by simp)]; simp
+    by_cases hn : n = 1
+    · subst hn
+      by_cases hjs : j < slices.length
+      · have hle : ((j : Int) ≤ len slices - 1) := by unfold len; omega
+        simp only [hle, decide_true, Bool.and_true, BEq.rfl, if_true, gidx_lt slices j hjs]
+        cases hg : slices[j] with
+        | none =>
+          have : slices[j]?.join = none := by simp [List.getElem?_eq_getElem hjs, hg]
+          simp only [Option.isSome_none, Bool.false_eq_true, if_false]
+          rw [keep]
+          simp [dropF, this]
+        | some sl =>
+          have : slices[j]?.join = some sl := by simp [List.getElem?_eq_getElem hjs, hg]
+          simp only [Option.isSome_some, if_true]
+          rw [hs1, hs2]
+          simp only []
+          rw [drop]
+          simp [dropF, this]
+      · have hle : ¬ ((j : Int) ≤ len slices - 1) := by unfold len; omega
+        have h2 : slices[j]? = none := List.getElem?_eq_none (by omega)
+        simp only [hle, decide_false, Bool.and_false, Bool.false_eq_true, if_false]
+        rw [keep]
+        simp [dropF, h2]
+    · have hn' : (n == 1) = false := by simpa using hn
+      simp only [hn', Bool.false_and, Bool.false_eq_true, if_false]
+      rw [keep]
+      simp [dropF, hn']
+end TM.Gen
+namespace TM.Gen
+open TM
+set_option linter.unusedSimpArgs false
+
+theorem shapeS_loop_filter (slices : List GoSlice) : ∀ (rest : List Int) (k : Nat) (ps : List (Int × Bool)),
+    shapeS.loop rest (slices.drop k) = .ok ps →
+    (ps.filter (fun (n, given) => !(n == 1 && given))).map (·.1) = dropF slices k (ps.map (·.1)) ∧ ps.length = rest.length := by
+  intro rest
+  induction rest with
+  | nil => intro k ps h; simp [shapeS.loop] at h; cases h; simp [dropF]
+  | cons size rest ih =>
+    intro k ps h
+    have hdrop : (slices.drop k).tail = slices.drop (k + 1) := by simp [List.tail_drop]
+    have hg : (slices.drop k).head?.join = slices[k]?.join := by simp [List.head?_drop]
+    rw [shapeS.loop, hg, hdrop] at h
+    cases hsd : sliceDetails (slices[k]?.join) size with
+    | error e => rw [hsd] at h; simp [bind, Except.bind] at h
+    | ok v =>
+      obtain ⟨a, b, c⟩ := v
+      rw [hsd] at h
+      simp only [bind, Except.bind] at h
+      cases hl : shapeS.loop rest (slices.drop (k + 1)) with
+      | error e => rw [hl] at h; simp at h
+      | ok tl =>
+        rw [hl] at h
+        simp only [pure, Except.pure] at h
+        injection h with h
+        subst h
+        obtain ⟨ih1, ih2⟩ := ih (k + 1) tl hl
+        refine ⟨?_, by simp [ih2]⟩
+        simp only [List.map_cons, dropF]
+        by_cases hd : ((if c > 0 then (if goDiv (b - a) c ≤ 0 then 1 else goDiv (b - a) c) else b - a) == 1 &&
+            (slices[k]?.join).isSome) = true
+        · simp only [List.filter_cons, hd, Bool.not_true, Bool.false_eq_true, if_false, if_true]
+          exact ih1
+        · have hd' := hd
+          simp only [Bool.not_eq_true] at hd'
+          simp only [List.filter_cons, hd', Bool.not_false, if_true, List.map_cons, Bool.false_eq_true, if_false]
+          rw [ih1]
+end TM.Gen
+namespace TM.Gen
+open TM
+set_option linter.unusedSimpArgs false
+
+theorem Shape_Clone_eq (s : List Int) : Shape_Clone s = .ok s := by
+  unfold Shape_Clone
+  simp [gmake_len, bind, Except.bind, pure, Except.pure, gcopy]
+
+theorem ctlRv_inv (x : GoM (Ctl (List Int × GoErr) (Int × Int × Int × List Int))) (v : List Int)
+    (h : x.map ctlRv = .ok (some v)) : ∃ d dm o, x = .ok (Ctl.next (d, dm, o, v)) := by
+  cases x with
+  | error e => simp [Except.map] at h
+  | ok c =>
+    cases c with
+    | ret r => simp [Except.map, ctlRv] at h
+    | next st =>
+      obtain ⟨d, dm, o, rv⟩ := st
+      simp [Except.map, ctlRv] at h
+      exact ⟨d, dm, o, by rw [h]⟩
+
+/-- `shape.go:Shape.S` (source, translated on this run) ≡ the model's `shapeS`: same refusals, same
+    resulting shape, for every shape and slice list. -/
+theorem Shape_S_eq (s : List Int) (slices : List GoSlice) :
+    clsE (Shape_S s slices) = clsM (shapeS s slices) := by
+  unfold Shape_S shapeS
+  by_cases hlen : slices.length > s.length
+  · have h1 : (len slices > len s) := by unfold len; omega
+    simp [h1, hlen, clsE, clsM, throwErr, pure, Except.pure, bind, Except.bind]
+  · have h1 : ¬ (len slices > len s) := by unfold len; omega
+    simp only [h1, hlen, decide_false, Bool.false_eq_true, if_false, Shape_Clone_eq, Shape_Dims, bind, Except.bind,
+      pure, Except.pure]
+    have hl1 := S_loop1 s slices s 0 s (by simp) rfl
+    simp only [List.drop_zero] at hl1
+    cases hm : shapeS.loop s slices with
+    | error e =>
+      rw [hm] at hl1
+      cases e with
+      | panic t => exact hl1.elim
+      | err t =>
+        obtain ⟨rv', e', hl⟩ := hl1
+        simp only [enum, hl]
+        simp [clsE, clsM]
+    | ok ps =>
+      rw [hm] at hl1
+      simp only [List.take_zero, List.nil_append] at hl1
+      simp only [enum, hl1]
+      obtain ⟨hf1, hf2⟩ := shapeS_loop_filter slices s 0 ps (by simpa using hm)
+      have hl2 := S_loop2 slices (ps.map (·.1)) [] 0 ((len s - 0).toNat + 2) (by simp [len, hf2]) (by simp)
+      simp only [List.length_nil, List.nil_append, List.length_map, hf2] at hl2
+      have e1 : (((0 : Nat) : Int) + (s.length : Int)) = len s := by simp [len]
+      have e2 : (((0 : Nat) : Int) - ((0 : Nat) : Int)) = 0 := by simp
+      have e3 : (((0 : Nat)) : Int) = 0 := rfl
+      rw [e1, e2, e3] at hl2
+      obtain ⟨d, dm, o, hx⟩ := ctlRv_inv _ _ hl2
+      simp only [hx, Shape_IsScalar, pure, Except.pure]
+      generalize hres : dropF slices 0 (ps.map (·.1)) = res at *
+      have hmodel : clsM (Except.ok ((ps.filter (fun (n, given) => !(n == 1 && given))).map (·.1)) : Res (List Int)) = Cls.val res := by
+        rw [hf1]; rfl
+      rw [hmodel]
+      cases res with
+      | nil => simp [clsE]
+      | cons x xs =>
+        have : ¬ (len xs + 1 = 0) := by
+          have := len_nonneg xs; omega
+        simp [this, clsE]
+end TM.Gen
